@@ -97,6 +97,41 @@ BINARY_OPERATORS = frozenset(
 )
 
 
+def _logical_str(
+    expression: Expression, parent_precedence: int, *, operand: bool = False
+) -> str:
+    """Return _expression_ as a string that parses back to the same tree.
+
+    `and` and `or` group from the right and `not` applies to everything that
+    follows it, so, as well as for clarity where `or` is nested in `and`, a logical
+    expression needs parentheses when it is a left-hand operand or an operand of
+    a comparison operator.
+    """
+    if isinstance(expression, LogicalAndExpression):
+        precedence = PRECEDENCE_LOGICAL_AND
+        op = "and"
+    elif isinstance(expression, LogicalOrExpression):
+        precedence = PRECEDENCE_LOGICAL_OR
+        op = "or"
+    elif isinstance(expression, LogicalNotExpression):
+        expr = f"not {_logical_str(expression.right, PRECEDENCE_PREFIX)}"
+        return f"({expr})" if operand else expr
+    else:
+        return str(expression)
+
+    left = _logical_str(expression.left, precedence, operand=True)
+    right = _logical_str(expression.right, precedence)
+    expr = f"{left} {op} {right}"
+    if operand or precedence < parent_precedence:
+        return f"({expr})"
+    return expr
+
+
+def _operand_str(expression: Expression) -> str:
+    """Return an operand of a comparison operator as a string."""
+    return _logical_str(expression, 0, operand=True)
+
+
 class BooleanExpression(Expression):
     """An expression that evaluates to true or false."""
 
@@ -112,32 +147,7 @@ class BooleanExpression(Expression):
         )
 
     def __str__(self) -> str:
-        def _str(expression: Expression, parent_precedence: int) -> str:
-            if isinstance(expression, LogicalAndExpression):
-                precedence = PRECEDENCE_LOGICAL_AND
-                op = "and"
-                left = _str(expression.left, precedence)
-                right = _str(expression.right, precedence)
-            elif isinstance(expression, LogicalOrExpression):
-                precedence = PRECEDENCE_LOGICAL_OR
-                op = "or"
-                left = _str(expression.left, precedence)
-                right = _str(expression.right, precedence)
-            elif isinstance(expression, LogicalNotExpression):
-                operand_str = _str(expression.right, PRECEDENCE_PREFIX)
-                expr = f"not {operand_str}"
-                if parent_precedence > PRECEDENCE_PREFIX:
-                    return f"({expr})"
-                return expr
-            else:
-                return str(expression)
-
-            expr = f"{left} {op} {right}"
-            if precedence < parent_precedence:
-                return f"({expr})"
-            return expr
-
-        return _str(self.expression, 0)
+        return _logical_str(self.expression, 0)
 
     def evaluate(self, context: RenderContext) -> bool:
         return is_truthy(self.expression.evaluate(context))
@@ -174,7 +184,7 @@ class LogicalNotExpression(Expression):
         return isinstance(other, LogicalNotExpression) and self.right == other.right
 
     def __str__(self) -> str:
-        return f"not {self.right}"
+        return _logical_str(self, 0)
 
     def evaluate(self, context: RenderContext) -> object:
         return not is_truthy(self.right.evaluate(context))
@@ -207,7 +217,7 @@ class LogicalAndExpression(Expression):
         self.right = right
 
     def __str__(self) -> str:
-        return f"{self.left} and {self.right}"
+        return _logical_str(self, 0)
 
     def evaluate(self, context: RenderContext) -> object:
         return is_truthy(self.left.evaluate(context)) and is_truthy(
@@ -232,7 +242,7 @@ class LogicalOrExpression(Expression):
         self.right = right
 
     def __str__(self) -> str:
-        return f"{self.left} or {self.right}"
+        return _logical_str(self, 0)
 
     def evaluate(self, context: RenderContext) -> object:
         return is_truthy(self.left.evaluate(context)) or is_truthy(
@@ -257,7 +267,7 @@ class EqExpression(Expression):
         self.right = right
 
     def __str__(self) -> str:
-        return f"{self.left} == {self.right}"
+        return f"{_operand_str(self.left)} == {_operand_str(self.right)}"
 
     def evaluate(self, context: RenderContext) -> object:
         return _eq(self.left.evaluate(context), self.right.evaluate(context))
@@ -281,7 +291,7 @@ class NeExpression(Expression):
         self.right = right
 
     def __str__(self) -> str:
-        return f"{self.left} != {self.right}"
+        return f"{_operand_str(self.left)} != {_operand_str(self.right)}"
 
     def evaluate(self, context: RenderContext) -> object:
         return not _eq(self.left.evaluate(context), self.right.evaluate(context))
@@ -305,7 +315,7 @@ class LeExpression(Expression):
         self.right = right
 
     def __str__(self) -> str:
-        return f"{self.left} <= {self.right}"
+        return f"{_operand_str(self.left)} <= {_operand_str(self.right)}"
 
     def evaluate(self, context: RenderContext) -> object:
         left = self.left.evaluate(context)
@@ -330,7 +340,7 @@ class GeExpression(Expression):
         self.right = right
 
     def __str__(self) -> str:
-        return f"{self.left} >= {self.right}"
+        return f"{_operand_str(self.left)} >= {_operand_str(self.right)}"
 
     def evaluate(self, context: RenderContext) -> object:
         left = self.left.evaluate(context)
@@ -355,7 +365,7 @@ class LtExpression(Expression):
         self.right = right
 
     def __str__(self) -> str:
-        return f"{self.left} < {self.right}"
+        return f"{_operand_str(self.left)} < {_operand_str(self.right)}"
 
     def evaluate(self, context: RenderContext) -> object:
         return _lt(
@@ -382,7 +392,7 @@ class GtExpression(Expression):
         self.right = right
 
     def __str__(self) -> str:
-        return f"{self.left} > {self.right}"
+        return f"{_operand_str(self.left)} > {_operand_str(self.right)}"
 
     def evaluate(self, context: RenderContext) -> object:
         return _lt(
@@ -409,7 +419,7 @@ class ContainsExpression(Expression):
         self.right = right
 
     def __str__(self) -> str:
-        return f"{self.left} contains {self.right}"
+        return f"{_operand_str(self.left)} contains {_operand_str(self.right)}"
 
     def evaluate(self, context: RenderContext) -> object:
         return _contains(
